@@ -59,9 +59,10 @@ func ccText(u string, v int) string {
 	}
 	// the last two lines are a header the user has just typed and the empty line below it: inline completion offers the
 	// postings of the payee's earlier transaction there, which carry the version's amount
+	// a commodity directive is in scope: the analysis runs its undeclared-commodity pass (which it skips when nothing is declared)
 	// every version also brings its own payee (v<n>) and its own account (assets:v<n>, which matches the
 	// fragment 'as' the completion request is made on): the name lists that completion offers depend on the version as well
-	return fmt.Sprintf("2024-01-01 shop %s\n    %s  %d USD\n    expenses:food\n\n2024-01-02 v%d\n    %s  1 USD\n    assets:v%d\n\n2024-03-01 shop %s\n", u, acct, v, v, acct, v, u)
+	return fmt.Sprintf("2024-01-01 shop %s\n    %s  %d USD\n    expenses:food\n\n2024-01-02 v%d\n    %s  1 USD\n    assets:v%d\n\ncommodity USD\n\n2024-03-01 shop %s\n", u, acct, v, v, acct, v, u)
 }
 
 type ccJob struct {
